@@ -316,7 +316,32 @@ var theEnv *env
 
 const sysStall = 150 * time.Second
 
-func runSys(_ *testing.T, c sysCase) error {
+// runSys applies the stall rule of DESIGN 4.3 to the whole system: a stalled case is re-run
+// alone with a doubled budget; if it stalls again a canary case (no faults, one proxy, 1 KB)
+// decides between "the environment is broken" (inconclusive) and a violation.
+func runSys(t *testing.T, c sysCase) error {
+	err := runSysOnce(t, c, sysStall)
+	if err == nil || !strings.HasPrefix(err.Error(), "STALL:") {
+		return err
+	}
+	uSys.Add("label:stalled once", 1)
+	c2 := c
+	c2.S.Label ^= 0x0100000000000000
+	err2 := runSysOnce(t, c2, 2*sysStall)
+	if err2 == nil {
+		return nil
+	}
+	if !strings.HasPrefix(err2.Error(), "STALL:") {
+		return err2
+	}
+	canary := sysCase{Proxies: 1, Max: 1, S: rig.Session{Label: c.S.Label ^ 0x0200000000000000, UpSize: 1000, DownSize: 1000, Carriers: []rig.Carrier{{}}}}
+	if cerr := runSysOnce(t, canary, sysStall); cerr != nil {
+		return fmt.Errorf("harness: whole-system stall, and the fault-free canary case fails too (%v): environment problem", cerr)
+	}
+	return fmt.Errorf("stream stalled twice although working proxies were available (and a fault-free canary session completes): %s", strings.TrimPrefix(err2.Error(), "STALL:"))
+}
+
+func runSysOnce(_ *testing.T, c sysCase, stall time.Duration) error {
 	r, err := rig.Get()
 	if err != nil {
 		return fmt.Errorf("harness: %v", err)
@@ -399,14 +424,14 @@ func runSys(_ *testing.T, c sysCase) error {
 		e.startProxy()
 		atomic.AddInt64(&faultsDone, 1)
 	}()
-	res := r.Drive(&c.S, conn, sysStall, func() int64 { return atomic.LoadInt64(&faultsDone) + atomic.LoadInt64(&e.started) })
+	res := r.Drive(&c.S, conn, stall, func() int64 { return atomic.LoadInt64(&faultsDone) + atomic.LoadInt64(&e.started) })
 	close(stop)
 	conn.Close()
 	if res.Err != "" {
 		return fmt.Errorf("%s", res.Err)
 	}
 	if res.Stalled {
-		return fmt.Errorf("harness: stream stalled for %v: upstream %d/%d, downstream %d/%d (whole-system stall; inconclusive, see DESIGN 4.3)", sysStall, res.UpGot, c.S.UpSize, res.DownGot, c.S.DownSize)
+		return fmt.Errorf("STALL: no progress for %v: upstream %d/%d, downstream %d/%d bytes, %d live proxies", stall, res.UpGot, c.S.UpSize, res.DownGot, c.S.DownSize, len(e.alive()))
 	}
 	if !res.UpDone || !res.DownDone {
 		return fmt.Errorf("incomplete: upstream %d/%d, downstream %d/%d", res.UpGot, c.S.UpSize, res.DownGot, c.S.DownSize)
